@@ -58,6 +58,7 @@ type Run struct {
 	Skip    bool              `json:"skipnamecheck"`
 	NoMarks bool              `json:"nomarks"` // transactions without marker refs (tables can become empty under compaction; no transaction accounting)
 	Pre     bool              `json:"preopen"` // every handle opens the stack during set-up (as in StackProto\'s Init)
+	Alien   map[string]bool   `json:"alien"`   // handles configured with the OTHER hash function (a misconfigured process)
 }
 
 type Out struct {
@@ -129,11 +130,12 @@ type handleState struct {
 }
 
 type runner struct {
-	run Run
-	dir string
-	cfg reftable.Config
-	c   *sched.Controller
-	hs  map[int]*handleState
+	run    Run
+	dir    string
+	cfg    reftable.Config
+	c      *sched.Controller
+	hs     map[int]*handleState
+	stHash map[*reftable.Stack]int
 }
 
 func classify(err error) string {
@@ -177,8 +179,24 @@ func (r *runner) recsOf(c Call) [][2]string {
 	return out
 }
 
+// cfgOf: the configuration of handle h (an "alien" handle uses the other hash function)
+func (r *runner) cfgOf(h int) reftable.Config {
+	c := r.cfg
+	if r.run.Alien[fmt.Sprint(h)] {
+		if c.HashID == reftable.SHA1ID {
+			c.HashID = reftable.SHA256ID
+		} else {
+			c.HashID = reftable.SHA1ID
+		}
+	}
+	return c
+}
+
 func (r *runner) tableWriter(st *reftable.Stack, idx uint64, part [][2]string, mark int) func(w *reftable.Writer) error {
 	hs := r.cfg.HashID.Size()
+	if n, ok := r.stHash[st]; ok && st != nil {
+		hs = n
+	}
 	return func(w *reftable.Writer) error {
 		recs := append([][2]string{}, part...)
 		if len(recs) > 0 && !r.run.NoMarks {
@@ -235,10 +253,11 @@ func (r *runner) doCall(h int, c Call) {
 		switch c.Op {
 		case "open":
 			var n *reftable.Stack
-			n, err = reftable.NewStack(r.dir, r.cfg)
+			n, err = reftable.NewStack(r.dir, r.cfgOf(h))
 			if err == nil {
 				reftable.VerifSetAutoCompact(n, hst.auto)
 				hst.st = n
+				r.stHash[n] = r.cfgOf(h).HashID.Size()
 			}
 		case "add":
 			part := [][2]string{}
@@ -314,10 +333,11 @@ func (r *runner) doCall(h int, c Call) {
 			st.Close()
 			hst.st = nil
 			var n *reftable.Stack
-			n, err = reftable.NewStack(r.dir, r.cfg)
+			n, err = reftable.NewStack(r.dir, r.cfgOf(h))
 			if err == nil {
 				reftable.VerifSetAutoCompact(n, hst.auto)
 				hst.st = n
+				r.stHash[n] = r.cfgOf(h).HashID.Size()
 			}
 		case "close":
 			st.Close()
@@ -334,6 +354,10 @@ func (r *runner) doCall(h int, c Call) {
 			msg = err.Error()
 		}
 	}()
+	if r.run.Alien[fmt.Sprint(h)] && (res == "other" || res == "nohandle") {
+		// a handle configured with the wrong hash function: the stack is right to refuse it, whatever the message
+		res = "rejected"
+	}
 	sched.LogCur(sched.Event{"ev": "ret", "h": h, "res": res, "err": msg, "op": c.Op})
 	r.view(h, false)
 }
@@ -409,6 +433,7 @@ func (r *runner) exec() (out Out) {
 	sched.Install(c)
 	defer sched.Install(nil)
 	r.hs = map[int]*handleState{}
+	r.stHash = map[*reftable.Stack]int{}
 
 	// set-up, performed sequentially by "handle 0" (recorded like everything else)
 	r.hs[0] = &handleState{}
